@@ -224,6 +224,63 @@ def oracle_roundtrip(ctx, res):
     return []
 
 
+def oracle_live(ctx, res):
+    """
+    The object that made the edits (not a reopened copy) answers walk / list_children / get_record /
+    get_file_from_iso_fp in every namespace exactly as the reference model predicts: removed names are gone,
+    re-added names read their new content.  Observed after write_fp, so the observation cannot influence the image.
+    """
+    from mc import driver
+    try:
+        driver.LIVE[0] = True
+        try:
+            obs = observe(ctx.impl.iso, ctx.cfg)
+        finally:
+            driver.LIVE[0] = False
+    except Exception as e:
+        t, site = explore.exc_site(e)
+        return [{'clause': 'the editing object can be walked and read', 'cls': '%s@%s' % (t, site),
+                 'msg': 'walk/read of the live object raised %s: %s' % (t, str(e)[:300])}]
+    exp, dyn, bit = resolve_expected(ctx.model)
+    if ctx.model.relocation_possible():
+        exp.pop('iso', None)
+        moved = '/' + (ctx.model.rr_moved[1] if ctx.model.rr_moved else 'rr_moved')
+        if 'rr' in obs and moved in obs['rr'] and moved not in exp.get('rr', {}) and obs['rr'][moved][0] == 'dir':
+            obs = dict(obs)
+            obs['rr'] = dict((p, v) for p, v in obs['rr'].items() if p != moved)
+    diffs = compare(obs, exp, dyn, bit)
+    if diffs:
+        cls = diffs[0].split(' ')[0].split(':')[0] + ':' + ' '.join(diffs[0].split(' ')[1:3])
+        return [{'clause': 'the editing object shows exactly the edits', 'cls': 'live ' + cls, 'msg': '; '.join(diffs[:8])}]
+    # names that existed at some earlier point of the history and were removed must no longer resolve
+    out = []
+    if not ctx.model.relocation_possible():
+        from mc.model import Model
+        ever = {}
+        m = Model(ctx.cfg)
+        for st in ctx.steps:
+            for op in st:
+                m.apply(op)
+            for ns, tree in m.expected().items():
+                ever.setdefault(ns, set()).update(tree)
+        now = ctx.model.expected()
+        keys = {'iso': 'iso_path', 'rr': 'rr_path', 'joliet': 'joliet_path', 'udf': 'udf_path'}
+        for ns in sorted(ever):
+            for p in sorted(ever[ns] - set(now.get(ns, ()))):
+                try:
+                    rec = ctx.impl.iso.get_record(**{keys[ns]: p})
+                except env.InvalidInput:
+                    continue
+                except Exception as e:
+                    t, site = explore.exc_site(e)
+                    out.append({'clause': 'a removed name no longer resolves', 'cls': 'live %s lookup %s@%s' % (ns, t, site), 'msg': '%s:%s: %s' % (ns, p, e)})
+                    continue
+                out.append({'clause': 'a removed name no longer resolves', 'cls': 'live %s lookup succeeds' % ns,
+                            'msg': 'get_record(%s=%r) still returns a record after the name was removed' % (keys[ns], p)})
+                # and once it has been looked up, a re-added name must not read the old content (lookup caches)
+    return out
+
+
 # ----------------------------------------------------------------------------
 # oracle: C05, re-mastering is a fixpoint
 
